@@ -67,10 +67,12 @@ func verifStrandedFinal(c *connection) func() {
 //  1: client-style connection without handler; SetOnRequest races with a delivery
 //  2: scenario 0 followed by a peer hang-up: buffered input is offered before close callbacks
 //  3: OnConnect still running when the first data arrives
+//  4: client-style connection without handler: a delivery and then the peer's hang-up, with
+//     SetOnRequest at any moment (before, between, after): the buffered input is offered
 //
 //verif:po
 //verif:bounds 2 deliveries (sizes symbolic in [1,4]), handler consumes any 1..Len per call, <= 3 task instances, state revisits <= 3; buffers summarised on length
-//verif:param 0 3
+//verif:param 0 4
 //verif:loop 40
 //verif:poloop 3
 //verif:potimeout 400
@@ -80,7 +82,7 @@ func verifHarness_C06_handoff(sc int) {
 	switch sc {
 	case 0:
 		c = verifNewConn(verifConnCfg{onRequest: true, closeCBs: 1, handler: verifHandlerConsume})
-	case 1:
+	case 1, 4:
 		c = verifNewConn(verifConnCfg{closeCBs: 1})
 	case 2:
 		c = verifNewConn(verifConnCfg{onRequest: true, closeCBs: 1, handler: verifHandlerAll})
@@ -120,6 +122,23 @@ func verifHarness_C06_handoff(sc int) {
 			}
 			p.onhups()
 			verifReach("delivered")
+		})
+	case 4:
+		verifThread("poller", func() {
+			if op.do() {
+				n := verifNondetInt("chunk1")
+				verifAssume(n >= 1)
+				verifAssume(n <= 4)
+				op.Inputs(vs)
+				op.InputAck(n)
+				p.appendHup(op)
+			}
+			p.onhups()
+			verifReach("delivered")
+		})
+		verifThread("user", func() {
+			c.SetOnRequest(verifHandlerAll)
+			verifReach("handler-set")
 		})
 	case 3:
 		verifThread("accept", func() {
